@@ -25,6 +25,17 @@ SIZES = {"B": 1, "H": 2, "I": 4, "Q": 8, "b": 1, "h": 2, "i": 4, "q": 8,
          "x": 8}
 SIZE_OP = {1: Opcode.B, 2: Opcode.H, 4: Opcode.W, 8: Opcode.DW}
 
+def fsize(fmt):
+    """size in bytes of a variable format (bit fields live in one byte)"""
+    if isinstance(fmt, (list, tuple)):
+        return 1
+    return SIZES[fmt[-1]]
+
+
+def pyfmt(fmt):
+    return tuple(fmt) if isinstance(fmt, (list, tuple)) else fmt
+
+
 ETH = 16                 # first usable packet offset (after a fake header)
 REG_CANDIDATES = [2, 3, 4, 5, 6, 8]
 
@@ -66,7 +77,7 @@ class Layout:
                 pos += 8
         for d in decls:
             if d["kind"] == "pkt":
-                size = SIZES[d["fmt"][-1]]
+                size = fsize(d["fmt"])
                 pos = (pos + size - 1) // size * size
                 self.pkt_var[d["name"]] = pos
                 pos += size
@@ -112,7 +123,7 @@ class Program:
                 e.owners.add(r["no"])
             for d in decls:
                 if d["kind"] == "local":
-                    size = SIZES[d["fmt"]]
+                    size = fsize(d["fmt"])
                     addr = type(e).__dict__[d["name"]].relative_addr
                     e.append(Opcode.LD + SIZE_OP[size], 0, 9,
                              lay.var_in[d["name"]], 0)
@@ -128,7 +139,7 @@ class Program:
                              + REG_CANDIDATES.index(r["no"]), 1)
             for d in decls:
                 if d["kind"] == "local":
-                    size = SIZES[d["fmt"]]
+                    size = fsize(d["fmt"])
                     addr = type(e).__dict__[d["name"]].relative_addr
                     e.append(Opcode.LD + SIZE_OP[size], 0, 10, addr, 0)
                     e.append(Opcode.STX + Opcode.DW, 9, 0,
@@ -142,11 +153,11 @@ class Program:
             ns["amap"] = ArrayMap()
         for d in decls:
             if d["kind"] == "local":
-                ns[d["name"]] = LocalVar(d["fmt"])
+                ns[d["name"]] = LocalVar(pyfmt(d["fmt"]))
             elif d["kind"] == "map":
-                ns[d["name"]] = ns["amap"].globalVar(d["fmt"])
+                ns[d["name"]] = ns["amap"].globalVar(pyfmt(d["fmt"]))
             elif d["kind"] == "pkt":
-                ns[d["name"]] = PacketVar(lay.pkt_var[d["name"]], d["fmt"])
+                ns[d["name"]] = PacketVar(lay.pkt_var[d["name"]], pyfmt(d["fmt"]))
         if extra_ns:
             ns.update(extra_ns)
         self.cls = type("P", (base,), ns)
@@ -226,7 +237,7 @@ class Program:
             pkt[lay.reg_in[r["no"]]:lay.reg_in[r["no"]] + 8] = \
                 (v & (2**64 - 1)).to_bytes(8, "little")
         for d in self.decls:
-            size = SIZES[d["fmt"][-1]]
+            size = fsize(d["fmt"])
             v = values[d["name"]] & ((1 << (8 * size)) - 1)
             if d["kind"] == "local":
                 pos = lay.var_in[d["name"]]
@@ -253,7 +264,7 @@ class Program:
             for d in self.decls:
                 if d["kind"] == "map":
                     pos = self.ebpf.__dict__[d["name"]]
-                    size = SIZES[d["fmt"][-1]]
+                    size = fsize(d["fmt"])
                     init_map[pos:pos + size] = (
                         values[d["name"]] & ((1 << (8 * size)) - 1)
                     ).to_bytes(size, "little")
@@ -314,7 +325,7 @@ class Program:
                 out[f"r{r['no']}"] = int.from_bytes(pkt[pos:pos + 8],
                                                     "little")
         for d in self.decls:
-            size = SIZES[d["fmt"][-1]]
+            size = fsize(d["fmt"])
             if d["kind"] == "local":
                 pos = lay.var_out[d["name"]]
                 out[d["name"]] = int.from_bytes(pkt[pos:pos + size], "little")
